@@ -291,7 +291,8 @@ func c01Reattach(rep *Report, f *Fixture, n int) {
 		t.EndChunked()
 		t.WaitEnd(3*time.Second, false) // a gateway that released the tunnel closes OUT (C11's subject); sequencing only
 		before := len(t.Snapshot().Packets)
-		x, xres, _ := OpenLegacy(f.GW.Addr, LegacyOpts{ConnID: id, SkipOut: true, InHeaders: env.Headers, Auth: env.Auth})
+		evFrom := f.GW.EventCount()
+		x, xres, _ := OpenLegacy(f.GW.Addr, LegacyOpts{ConnID: id, SkipOut: true, InHeaders: env.Headers, Auth: env.Auth, WaitDrained: f.GW.WaitDrained(evFrom)})
 		st := 0
 		if xres != nil && xres.In != nil {
 			st = xres.In.Status
